@@ -23,3 +23,8 @@ pub fn fd_subpath_string(fd: i32) -> (r: String) ensures r.pview() == fd_path(fd
 pub fn cwd_subpath_string() -> (r: String) ensures r.pview() == cwd_path() { unimplemented!() }
 pub uninterp spec fn stat_is_symlink(fd: int) -> bool;
 pub uninterp spec fn readlink_via_procfs(body: Seq<u8>, base: ProcfsBase, subpath: Seq<u8>) -> bool;
+pub uninterp spec fn dangerous_fs(fd: int) -> bool;     // the object lives on procfs or apparmorfs (magic-link filesystems)
+/// R6 (fsword_contains): `ARRAY.contains(&x)` on the two-element array of filesystem magics
+pub fn fsword_contains(a: &[i64; 2], x: i64) -> (r: bool)
+    ensures r == (a@[0] == x || a@[1] == x)
+{ a[0] == x || a[1] == x }
